@@ -222,6 +222,45 @@ class Labeller:
         return bad
 
 
+def kind_preserving_relabels(facts, rep, w, rule, only=None):
+    """R12.4: a `map_err` closure of the path layer that receives a VfsError relabels it — `with_path` / `with_context` /
+    `with_cause` around the error it was given — and never answers with a fresh error of another kind: the class the backend
+    (or the adapter below) reported is the class the caller sees, through any number of stacked adapters"""
+    inter = Inter(facts)
+    n = 0
+    for b in path_layer_bodies(facts, w):
+        if only and b.name not in only:
+            continue
+        for cb in inter.code_bodies(b):
+            tr = get_tracer(facts, cb)
+            for s_ in inter.sites(cb):
+                if s_.short != "Result::map_err" or len(s_.args) != 2:
+                    continue
+                clo = strip(tr.operand(s_.args[1]))
+                if clo[0] != "closure":
+                    continue
+                fc = facts.body(clo[1])
+                if fc is None or fc.arg_count < 2 or "error::VfsError" not in fc.local_ty(2) or "std::io::Error" in fc.local_ty(2):
+                    continue        # (conversions of io::Error / other error types build the VfsError in the first place)
+                fresh = []
+                for ct, _, bb in inter.ret_cases(fc):
+                    for a in alts(norm(ct)):
+                        x = a
+                        while x[0] == "call" and isinstance(x[1], str) and short(x[1]) in ("VfsError::with_path", "VfsError::with_context",
+                                                                                         "VfsError::with_cause", "Clone::clone") and x[2]:
+                            x = norm(x[2][0])
+                        # (the closure's parameter is bound to the Err payload of the receiver of map_err: `errval(..)`)
+                        given = lambda y: y[0] in ("arg", "errval")
+                        if not (given(x) or (x[0] == "call" and isinstance(x[1], str) and short(x[1]) in ("From::from", "Into::into") and
+                                             x[2] and given(norm(x[2][0])))):
+                            fresh.append((fmt(x)[:50], fc.blocks[bb].term.line))
+                n += 1
+                rep.ob(rule, b.id, "map_err relabels the error it was given (same kind)", not fresh, "" if not fresh else
+                       "a relabelling closure answers with %s instead of the error it received: the backend's error class "
+                       "(DirectoryExists, FileNotFound, NotSupported ..) is replaced on the way up" % fresh[0][0], fresh[0][1] if fresh else s_.line)
+    return n
+
+
 def run_world(facts, rep, w, floors):
     inter = Inter(facts)
     pf = PathFlow(facts, w, inter)
@@ -284,6 +323,8 @@ def run_world(facts, rep, w, floors):
             for s in inter.sites(c):
                 if s.short == "VfsError::with_path":
                     n_with_path += 1
+    k4 = kind_preserving_relabels(facts, rep, w, "R12.4")
+    rep.floor("relabelling closures of the path layer (%s)" % w.tag, k4, 10)
     rep.floor("fallible path-layer functions (%s)" % w.tag, n_fallible, floors["fallible"])
     rep.floor("with_path call sites in the path layer (%s)" % w.tag, n_with_path, floors["with_path"])
 
@@ -590,6 +631,17 @@ def run(facts, rep, tier, ctx):
             d = o["key"].split("|")[2]
             if "propagated" in d:
                 rep.ob(("A/" if w_.asyncw else "") + "R12.3u", o["fn"], d, o["ok"], o["detail"], o["loc"])
+        # a removal of something that is not there answers not-found: the overlay asks the union before it does anything else
+        scratch = Report("r")
+        c09.table_u(facts, scratch, w_, "U", only=("remove_file", "remove_dir"))
+        for o in scratch.obligations:
+            d = o["key"].split("|")[2]
+            if "union exists before" in d:
+                rep.ob(("A/" if w_.asyncw else "") + "R12.3u", o["fn"], d, o["ok"], o["detail"], o["loc"])
+        # create_dir_all classifies what is in the way through the backend's create_dir (FileExists for a file, at the last segment
+        # as for any other): no existence shortcut with an error of its own in front of the attempt (C17 R17.1)
+        from ..pathrules import PathRules as _PR12
+        _PR12(facts, w_, D).create_dir_all(rep if not w_.asyncw else _Pf12(rep, "A"), "R12.3d")
         # occupied create_dir through the overlay: file-exists / directory-exists by the type of the entry the union shows
         scratch = Report("v")
         c09.table_u(facts, scratch, w_, "U", only=("create_dir",))
